@@ -480,6 +480,7 @@ def enumerate_cases(tier, seed):
     for st_ in ("ForkingTCPServer", "ThreadingTCPServer"):
         yield {"mode": "bad-handshakes", "servertype": st_, "n": 90}
         yield {"mode": "reset-during-relay", "servertype": st_}
+        yield {"mode": "sequence", "servertype": st_}
     # a crowd of different large downloads and scripts, all released at once
     for st_ in ("ThreadingTCPServer", "ForkingTCPServer"):
         yield {"mode": "burst", "crowd": True, "servertype": st_}
@@ -666,7 +667,51 @@ def _check_reset_during_relay(case, ctx):
         world.rmtree(base)
 
 
+def _check_sequence(case, ctx):
+    """requests of different kinds of client, one after the other, on one long-running server: each gets what it gets from a
+    server that has just started (nothing a request did may colour the next one)"""
+    base = world.fresh_dir("c14")
+    ra = os.path.join(base, "A")
+    os.mkdir(ra)
+    spec = [["readme.txt", "f", "hello\n"], ["d/a.txt", "f", "a\n"], ["d/b.html", "f", "<html><title>B</title></html>\n"]]
+    world.materialise(spec, ra)
+    srv = None
+    fails = []
+    try:
+        srv = live.Server(live.write_conf(os.path.join(base, "a.conf"), ra, "full", case["servertype"], cachetime=0))
+        bare = lambda p_: b"GET " + p_ + b" HTTP/1.0\r\n\r\n"  # noqa: E731
+        seq = [(clients.encode("waphdr", b"/"), False), (bare(b"/"), False), (clients.encode("http", b"/d"), False),
+               (clients.encode("waphdr", b"/d"), True), (bare(b"/d"), True), (b"/d\t$\r\n", False), (bare(b"/readme.txt"), False),
+               (clients.encode("gemini", b"/d"), True), (bare(b"/"), False)]
+        ctx.nontriv((case["servertype"], "sequence"))
+        ctx.label("sequence:" + case["servertype"])
+        ctx.sample(case, cls="sequence")
+        for i, (rq, tls) in enumerate(seq):
+            got = live.request(srv.port, rq, tls, timeout=15)
+            rb = os.path.join(base, "B%d" % i)
+            os.mkdir(rb)
+            world.materialise(spec, rb)
+            fresh = live.Server(live.write_conf(os.path.join(base, "b%d.conf" % i), rb, "full", case["servertype"], cachetime=0))
+            try:
+                want = live.request(fresh.port, rq, tls, timeout=15)
+            finally:
+                fresh.stop()
+            ctx.count("sequence_requests")
+            if _mask(got) != _mask(want):
+                fails.append(Fail("sequence-differs:%s" % case["servertype"],
+                                  "request %d of a sequence on one server (%r, tls=%s) is answered differently than by a server that has just "
+                                  "started: %r vs %r" % (i + 1, rq[:60], tls, _mask(got)[:100], _mask(want)[:100])))
+                break
+        return fails
+    finally:
+        if srv is not None:
+            srv.stop()
+        world.rmtree(base)
+
+
 def check_case(case, ctx):
+    if case["mode"] == "sequence":
+        return _check_sequence(case, ctx)
     if case["mode"] == "reset-during-relay":
         return _check_reset_during_relay(case, ctx)
     if case["mode"] == "idle-crowd":
